@@ -166,6 +166,9 @@ theorem step_masgG (j i : Nat) : StepSim (.masgG j i) := by
       · rename_i hc2; rw [if_pos hc2]; leaf h hR
       · rename_i hc2; rw [if_neg hc2]
         split at h
+        · rename_i hown; have hown' := hown; rw [← hR.ownedG] at hown'; rw [if_pos hown']; leaf h hR
+        rename_i hown; have hown' := hown; rw [← hR.ownedG] at hown'; rw [if_neg hown']
+        split at h
         · rename_i hacc; rw [if_pos hacc]
           split at h
           · rename_i hc3; rw [if_pos hc3]; leaf h hR
@@ -227,8 +230,9 @@ theorem step_delG (i : Nat) : StepSim (.delG i) := by
     split at h
     · rename_i hpin; rw [if_pos hpin]; leaf h hR
     · rename_i hpin; rw [if_neg hpin]
-      have hpin' : ¬ (hd.everFwd = true ∧ hd.fl.isTrackable = false) := by
-        simpa using hpin
+      split at h
+      · rename_i hown; have hown' := hown; rw [← hR.ownedG] at hown'; rw [if_pos hown']; leaf h hR
+      rename_i hown; have hown' := hown; rw [← hR.ownedG] at hown'; rw [if_neg hown']
       generalize hs1 : (if hd.fl.isTrackable = true then Model.invalidateTrackable s hd.trk else s) = s1 at h
       generalize ht1 : (if hd.fl.isTrackable = true then Spec.invalidateTrackable t hd.trk else t) = t1
       have g1 : Emit.Good0 s s1 := by
@@ -239,28 +243,13 @@ theorem step_delG (i : Nat) : StepSim (.delG i) := by
         subst hs1; subst ht1; split
         · exact R_invalidateTrackable hs hR _
         · exact hR
-      have hG1 : s1.G = s.G := by
-        subst hs1; split
-        · exact Emit.invalidateTrackable_G _ _
-        · rfl
-      have hnt : hd.fl.isTrackable = true →
-          (∀ j v, aget s1.S j = some v → v.slot.tracksObj hd.trk = false) ∧
-          (∀ j im, aget s1.impls j = some im → ∀ c ∈ im.cells, c.slot.tracksObj hd.trk = false) := by
-        intro htk; subst hs1; simp only [htk, if_true]
-        exact Emit.noTrack_invalidateTrackable hs _
-      have hg1 : aget s1.G i = some hd := by rw [hG1]; exact hi
-      have i2 : Emit.Inv { s1 with G := Model.adel s1.G i } := by
-        have i1 := g1.inv
-        refine ⟨i1.keys, i1.lt, i1.ok, i1.disj, ?_, ?_, ?_, i1.noerr⟩
-        · intro p hp k hk; exact i1.himpl p (Emit.mem_adel hp).1 k hk
-        · intro j v hv
-          exact (i1.fwdS j v hv).adel hg1 hpin' (fun htk => (hnt htk).1 j v hv)
-        · intro j im hj c hc
-          exact (i1.fwdC j im hj c hc).adel hg1 hpin' (fun htk => (hnt htk).2 j im hj c hc)
+      have i1 := g1.inv
       rw [hR1.G]
       cases him : hd.impl with
       | none => simp only [him] at h ⊢; leaf h (hR1.updG _)
-      | some im => simp only [him] at h ⊢; leaf h (R_gc i2 (hR1.updG _) im)
+      | some im =>
+        simp only [him] at h ⊢
+        leaf h (R_gc' (s := { s1 with G := Model.adel s1.G i }) i1.keys i1.lt i1.disj (hR1.updG _) im)
 
 /-- the common tail of `conn` and `connfn`: insert the cell, store its id in connection `k` -/
 theorem sim_insertConn {s : St} {t : Spec.LSt} (hR : R s t) (im : Nat) (first : Bool) (sl : SlotB) (k : Nat) :
